@@ -448,6 +448,16 @@ func checkEffective(c *driver.Ctx, fc *faithCase, em map[string]any, source stri
 		main, alt := effForm(w.val.want)
 		if !present {
 			if isZero(w.val.want) {
+				// a zero value may be dropped (omitempty) — unless it is an empty list or map written over a NON-empty
+				// default: then the written key is what switches the default off, and a configuration that does not
+				// show it loads the default again
+				// — unless it is a list written as `[]`: an empty list is not "no list" (compression_algorithms: []
+				// switches every algorithm off, an absent key means the built-in set), the loader keeps it as a non-nil
+				// empty slice and the effective configuration has to show it
+				if w.val.want.Kind() == reflect.Slice && !w.val.want.IsNil() {
+					c.Violation("effective", fmt.Sprintf("%s: key %s was written as an empty list and is absent from the effective configuration", fc.comp.name(), w.leaf.Key()),
+						fc.witness(map[string]any{"key": w.leaf.Key()}), "comp", fc.comp.name(), "key", w.leaf.Key(), "kind", "effective-absent-empty-list", "source", source)
+				}
 				continue
 			}
 			c.Violation("effective", fmt.Sprintf("%s: written key %s (= %s) is absent from the effective configuration", fc.comp.name(), w.leaf.Key(), show(w.val.want, false)),
